@@ -2,16 +2,19 @@
 // Child module of crate::reader::reader_cursor: sees IndexBlockCursor and the private fields of
 // ReaderCursor / Reader.
 #![allow(dead_code)]
+use std::io;
 use std::mem;
 
 use super::*;
 use crate::block::verif_ac::*;
+use crate::block::{Block, BlockCursor};
 use crate::metadata::{FileVersion, Metadata};
 
 pub(crate) type Cur = ReaderCursor<ModelFile>;
 
 #[derive(Clone, Copy)]
 pub(crate) struct Layout {
+    pub id: u8,
     pub root: usize,
     pub levels: u8,
     pub n: usize,
@@ -145,6 +148,17 @@ pub(crate) fn any_probe(maxlen: usize) -> Probe {
     let p = Probe { b: kani::any(), len: kani::any() };
     kani::assume(p.len <= maxlen);
     p
+}
+
+/// probe_max >= 10 encodes an exact length (probe_max - 10): used where the byte-string classes are covered by a
+/// kernel and the glue harness only needs the order relation (keeps heap objects of concrete size).
+pub(crate) fn any_probe_spec(spec: usize) -> Probe {
+    if spec >= 10 {
+        let p = Probe { b: kani::any(), len: spec - 10 };
+        p
+    } else {
+        any_probe(spec)
+    }
 }
 
 /// Logical position model of C03.
@@ -321,8 +335,424 @@ pub(crate) fn run_schema(layout: u8, ops: &[Op], minlen: usize, maxlen: usize, p
         kani::cover!(qr == rank(key_of(1)));
         kani::cover!(qr > rank(key_of(0)) && qr < rank(key_of(1)));
     }
-    kani::cover!(m.valid);
+    kani::cover!(m.valid || l.n == 0);
     mem::forget(c);
+}
+
+// ------------------------------------------------------------------------------------------------ S-form
+// Symbolic pre-states built directly from a few symbolic integers (no path merging), so that ONE operation
+// from EVERY state satisfying the representation invariant is one solver query. Histories of any length
+// are covered by induction: base = fresh cursor (schema harnesses), step = these harnesses.
+//
+// RI-strong(i): the cursor is positioned on entry i: level l holds the block on the path to i, positioned on
+//   the child leading to i; the data block holds i at its position; every recorded offset is either the
+//   offset its block was loaded from or is not the offset of any block of that level.
+// RI-weak: only the clause on recorded offsets (positions and blocks arbitrary) - what absolute moves need.
+
+fn not_a_block_of_level(layout: u8, lvl: usize, r: usize) -> bool {
+    let (cnt, blks) = level_blocks(layout, lvl);
+    let mut j = 0;
+    while j < 8 {
+        if j < cnt && blks[j] == r {
+            return false;
+        }
+        j += 1;
+    }
+    true
+}
+
+fn any_recorded(layout: u8, lvl: usize, loaded: usize) -> u64 {
+    if kani::any() {
+        loaded as u64
+    } else {
+        let r: usize = kani::any();
+        kani::assume(r < MAXB);
+        kani::assume(not_a_block_of_level(layout, lvl, r));
+        r as u64
+    }
+}
+
+fn mk_reader_cursor(l: &Layout, inner: Option<Vec<(u64, BlockCursor<Block>)>>, data: Option<BlockCursor<Block>>, version: FileVersion) -> Cur {
+    let pos: u64 = kani::any();
+    ReaderCursor {
+        index_block_cursor: IndexBlockCursor {
+            base_block_offset: l.root as u64,
+            compression_type: CompressionType::None,
+            index_levels: l.levels,
+            inner,
+        },
+        current_cursor: data,
+        reader: Reader {
+            metadata: Metadata {
+                file_version: version,
+                index_block_offset: l.root as u64,
+                compression_type: CompressionType::None,
+                entries_count: l.n as u64,
+                index_levels: l.levels,
+            },
+            reader: ModelFile { pos },
+        },
+    }
+}
+
+/// A cursor in RI-strong(i).
+pub(crate) fn strong_state(l: &Layout, i: usize, version: FileVersion) -> Cur {
+    let depth = l.levels as usize + 1;
+    let mut inner = Vec::with_capacity(depth);
+    let mut lvl = 0;
+    while lvl < MAXDEPTH {
+        if lvl < depth {
+            let (b, p) = path_of(l.id, i, lvl);
+            inner.push((any_recorded(l.id, lvl, b), make_cursor(b, Some(p))));
+        }
+        lvl += 1;
+    }
+    let (d, pd) = path_of(l.id, i, depth);
+    mk_reader_cursor(l, Some(inner), Some(make_cursor(d, Some(pd))), version)
+}
+
+fn any_block_of_level(layout: u8, lvl: usize) -> usize {
+    let (cnt, blks) = level_blocks(layout, lvl);
+    let k: usize = kani::any();
+    kani::assume(k < cnt);
+    blks[k]
+}
+
+fn any_pos_in(b: usize) -> Pos {
+    if kani::any() {
+        None
+    } else {
+        let j: usize = kani::any();
+        kani::assume(j <= block_count(b));
+        Some(j)
+    }
+}
+
+/// A cursor in RI-weak: fresh, or any block of the right level at each level with any position.
+pub(crate) fn weak_state(l: &Layout, version: FileVersion) -> Cur {
+    let depth = l.levels as usize + 1;
+    let data = if kani::any() {
+        None
+    } else {
+        let d = any_block_of_level(l.id, depth);
+        Some(make_cursor(d, any_pos_in(d)))
+    };
+    if kani::any() {
+        return mk_reader_cursor(l, None, data, version);
+    }
+    let mut inner = Vec::with_capacity(depth);
+    let mut lvl = 0;
+    while lvl < MAXDEPTH {
+        if lvl < depth {
+            let b = any_block_of_level(l.id, lvl);
+            inner.push((any_recorded(l.id, lvl, b), make_cursor(b, any_pos_in(b))));
+        }
+        lvl += 1;
+    }
+    mk_reader_cursor(l, Some(inner), data, version)
+}
+
+/// The recorded-offset clause (RI-weak) on the actual state.
+pub(crate) fn check_weak(c: &Cur, l: &Layout) {
+    if let Some(inner) = &c.index_block_cursor.inner {
+        assert!(inner.len() == l.levels as usize + 1, "RI: one loaded block per index level");
+        let mut lvl = 0;
+        while lvl < MAXDEPTH {
+            if lvl < inner.len() {
+                let (r, cur) = &inner[lvl];
+                let b = cursor_block(cur);
+                assert!(*r as usize == b || not_a_block_of_level(l.id, lvl, *r as usize),
+                    "RI: a level's recorded offset names another block of that level than the one loaded (stale offset)");
+            }
+            lvl += 1;
+        }
+    }
+}
+
+/// RI-strong(i) on the actual state.
+pub(crate) fn check_strong(c: &Cur, l: &Layout, i: usize) {
+    let depth = l.levels as usize + 1;
+    match &c.index_block_cursor.inner {
+        Some(inner) => {
+            assert!(inner.len() == depth, "RI: one loaded block per index level");
+            let mut lvl = 0;
+            while lvl < MAXDEPTH {
+                if lvl < depth {
+                    let (r, cur) = &inner[lvl];
+                    let (b, p) = path_of(l.id, i, lvl);
+                    assert!(cursor_block(cur) == b, "RI: index level holds a block that is not on the path to the current entry");
+                    assert!(cursor_pos(cur) == Some(p), "RI: index level is not positioned on the child leading to the current entry");
+                    assert!(*r as usize == b || not_a_block_of_level(l.id, lvl, *r as usize),
+                        "RI: a level's recorded offset names another block of that level than the one loaded (stale offset)");
+                }
+                lvl += 1;
+            }
+        }
+        None => panic!("RI: positioned cursor without loaded index blocks"),
+    }
+    match &c.current_cursor {
+        Some(cur) => {
+            let (d, pd) = path_of(l.id, i, depth);
+            assert!(cursor_block(cur) == d, "RI: data block loaded is not the one holding the current entry");
+            assert!(cursor_pos(cur) == Some(pd), "RI: data block position is not the current entry");
+        }
+        None => panic!("RI: positioned cursor without a data block"),
+    }
+}
+
+pub(crate) const S_FIRST: u8 = 0;
+pub(crate) const S_LAST: u8 = 1;
+pub(crate) const S_GE: u8 = 2;
+pub(crate) const S_LE: u8 = 3;
+pub(crate) const S_EQ: u8 = 4;
+pub(crate) const S_NEXT: u8 = 5;
+pub(crate) const S_PREV: u8 = 6;
+pub(crate) const S_CURRENT: u8 = 7;
+pub(crate) const S_CLONE_NEXT: u8 = 8;
+pub(crate) const S_CLONE_PREV: u8 = 9;
+
+pub(crate) struct StepFacts {
+    pub fresh: bool,
+    pub n: usize,
+    pub i: usize,
+    pub expect: Option<usize>,
+    pub qr: u32,
+    pub loads: u32,
+}
+
+fn c16_check(l: &Layout) -> u32 {
+    let loads = t().loads;
+    assert!(loads <= 2 * (l.levels as u32 + 2), "C16: more than 2 x (levels + 2) block loads in one operation");
+    assert!(t().protocol_ok, "C16: block load not preceded by exactly one absolute seek");
+    loads
+}
+
+/// One absolute operation from every RI-weak state.
+pub(crate) fn step_abs(layout: u8, op: u8, minlen: usize, maxlen: usize, probe_max: usize, weak: bool) -> StepFacts {
+    reset_tables();
+    let l = build_layout(layout, minlen, maxlen);
+    let sym = any_probe(probe_max);
+    let q = &sym.b[..sym.len];
+    let qr = rank(q);
+    let version = if kani::any() { FileVersion::FormatV1 } else { FileVersion::FormatV2 };
+    // weak: every RI-weak state; otherwise the states an operation that returned an entry leaves (RI-strong) or fresh
+    let mut c = if weak {
+        weak_state(&l, version)
+    } else if l.n == 0 || kani::any() {
+        mk_reader_cursor(&l, None, None, version)
+    } else {
+        let i0: usize = kani::any();
+        kani::assume(i0 < l.n);
+        strong_state(&l, i0, version)
+    };
+    let fresh = c.index_block_cursor.inner.is_none();
+    let n = l.n;
+    let (got, expect) = match op {
+        S_FIRST => (eidx(c.move_on_first(), n), if n > 0 { Some(0) } else { None }),
+        S_LAST => (eidx(c.move_on_last(), n), if n > 0 { Some(n - 1) } else { None }),
+        S_GE => (eidx(c.move_on_key_greater_than_or_equal_to(q), n), ceiling(qr, n)),
+        S_LE => (eidx(c.move_on_key_lower_than_or_equal_to(q), n), floor(qr, n)),
+        _ => (eidx(c.move_on_key_equal_to(q), n), exact(qr, n)),
+    };
+    match got {
+        Ok(g) => assert!(g == expect, "absolute cursor move returned a different entry than the sorted content determines (history dependence)"),
+        Err(()) => panic!("cursor operation failed although no I/O fault was injected"),
+    }
+    match expect {
+        Some(i) => check_strong(&c, &l, i),
+        None => check_weak(&c, &l),
+    }
+    let loads = c16_check(&l);
+    mem::forget(c);
+    StepFacts { fresh, n, i: 0, expect, qr, loads }
+}
+
+/// next / prev from every RI-strong state.
+pub(crate) fn step_move(layout: u8, forward: bool, minlen: usize, maxlen: usize) -> StepFacts {
+    reset_tables();
+    let l = build_layout(layout, minlen, maxlen);
+    let n = l.n;
+    let i: usize = kani::any();
+    kani::assume(i < n);
+    let version = if kani::any() { FileVersion::FormatV1 } else { FileVersion::FormatV2 };
+    let mut c = strong_state(&l, i, version);
+    let expect = if forward { if i + 1 < n { Some(i + 1) } else { None } } else if i > 0 { Some(i - 1) } else { None };
+    let got = if forward { eidx(c.move_on_next(), n) } else { eidx(c.move_on_prev(), n) };
+    match got {
+        Ok(g) => assert!(g == expect, "relative cursor move did not return the adjacent entry"),
+        Err(()) => panic!("cursor operation failed although no I/O fault was injected"),
+    }
+    if let Some(j) = expect {
+        check_strong(&c, &l, j);
+    }
+    let loads = c16_check(&l);
+    mem::forget(c);
+    StepFacts { fresh: false, n, i, expect, qr: 0, loads }
+}
+
+/// current() from every RI-strong state.
+pub(crate) fn step_current(layout: u8, minlen: usize, maxlen: usize) -> StepFacts {
+    reset_tables();
+    let l = build_layout(layout, minlen, maxlen);
+    let n = l.n;
+    let i: usize = kani::any();
+    kani::assume(i < n);
+    let c = strong_state(&l, i, FileVersion::FormatV2);
+    assert!(eidx_plain(c.current(), n) == Some(i), "C03: current() is not the entry the cursor is positioned on");
+    mem::forget(c);
+    StepFacts { fresh: false, n, i, expect: Some(i), qr: 0, loads: 0 }
+}
+
+/// clone from every RI-strong state, then move the clone: it continues from the same position, the
+/// original is unaffected.
+pub(crate) fn step_clone(layout: u8, forward: bool, minlen: usize, maxlen: usize) -> StepFacts {
+    reset_tables();
+    let l = build_layout(layout, minlen, maxlen);
+    let n = l.n;
+    let i: usize = kani::any();
+    kani::assume(i < n);
+    let c = strong_state(&l, i, FileVersion::FormatV2);
+    let mut c2 = c.clone();
+    check_strong(&c2, &l, i);
+    let expect = if forward { if i + 1 < n { Some(i + 1) } else { None } } else if i > 0 { Some(i - 1) } else { None };
+    let got = if forward { eidx(c2.move_on_next(), n) } else { eidx(c2.move_on_prev(), n) };
+    match got {
+        Ok(g) => assert!(g == expect, "C03: a clone did not continue from the position of its original"),
+        Err(()) => panic!("cursor operation failed although no I/O fault was injected"),
+    }
+    if let Some(j) = expect {
+        check_strong(&c2, &l, j);
+    }
+    check_strong(&c, &l, i);
+    assert!(eidx_plain(c.current(), n) == Some(i), "C03: moving a clone changed its original");
+    let loads = c16_check(&l);
+    mem::forget(c2);
+    mem::forget(c);
+    StepFacts { fresh: false, n, i, expect, qr: 0, loads }
+}
+
+// ------------------------------------------------------------------------------------------------ contracts
+// The >= seek and the <= seek replaced by their *contracts* (what the seek harnesses prove about the real
+// methods): result = ceiling / floor of the probe over the sorted content; on Some(i) the cursor is left in
+// SOME state satisfying RI-strong(i), on None in SOME RI-weak state. Used to split multi-step public calls at
+// the crate's own seams (<= seek = >= seek + one relative step; iterators = seek + steps), because a second
+// symbolic operation on the merged post-state of a real symbolic seek exhausts the solver's memory.
+pub(crate) static mut CONTRACT_LAYOUT: Layout = Layout { id: 0xC7, root: 0x5EED_00C1, levels: 0xC9, n: 0x5EED_00C2 };
+
+pub(crate) static mut CONTRACT_WEAK: u8 = 0xC5;
+
+pub(crate) fn set_contract_layout(l: &Layout) {
+    unsafe {
+        CONTRACT_LAYOUT = *l;
+        CONTRACT_WEAK = 0;
+    }
+}
+pub(crate) fn set_contract_weak(w: bool) {
+    unsafe {
+        CONTRACT_WEAK = w as u8;
+    }
+}
+
+/// The state a seek that found nothing leaves when it was issued on a fresh cursor or on one positioned by an
+/// operation that returned an entry: unchanged, except that the root level is exhausted.
+fn after_none_state(l: &Layout, version: FileVersion) -> Cur {
+    if l.n == 0 || kani::any() {
+        return mk_reader_cursor(l, None, None, version);
+    }
+    let j: usize = kani::any();
+    kani::assume(j < l.n);
+    let mut c = strong_state(l, j, version);
+    if let Some(inner) = c.index_block_cursor.inner.as_mut() {
+        let root_count = block_count(l.root);
+        let cur = make_cursor(l.root, Some(root_count));
+        mem::forget(mem::replace(&mut inner[0].1, cur));
+    }
+    c
+}
+
+/// which = 0: the seek found an entry (assumed): cursor := some RI-strong(target) state
+/// which = 1: it found nothing (assumed): cursor := fresh, or RI-strong with the root exhausted
+/// which = 2: found nothing, cursor := any RI-weak state
+/// One outcome per stub on purpose: building both and merging them is what exhausts the solver's memory; the
+/// harnesses split the probe space into the matching classes (`kani::assume`), so together they cover it.
+fn contract_result<R>(c: &mut ReaderCursor<R>, target: Option<usize>, which: u8) -> crate::Result<Option<(&'static [u8], &'static [u8])>> {
+    let l = unsafe { CONTRACT_LAYOUT };
+    // the harnesses instantiate R = ModelFile only
+    let c: &mut Cur = unsafe { &mut *(c as *mut ReaderCursor<R> as *mut Cur) };
+    let version = c.reader.metadata.file_version;
+    if which == 0 {
+        kani::assume(target.is_some());
+        let i = match target {
+            Some(i) => i,
+            None => 0,
+        };
+        let new = strong_state(&l, i, version);
+        mem::forget(mem::replace(c, new));
+        let (d, pd) = path_of(l.id, i, l.levels as usize + 1);
+        Ok(Some(ac_entry(d, pd)))
+    } else {
+        kani::assume(target.is_none());
+        let new = if which == 2 { weak_state(&l, version) } else { after_none_state(&l, version) };
+        mem::forget(mem::replace(c, new));
+        Ok(None)
+    }
+}
+
+// (inherent methods, so that their generics (impl-level R, method-level A) line up with the methods they replace)
+impl<R: io::Read + io::Seek> ReaderCursor<R> {
+    pub(crate) fn ge_contract_some<A: AsRef<[u8]>>(&mut self, key: A) -> crate::Result<Option<(&[u8], &[u8])>> {
+        let n = unsafe { CONTRACT_LAYOUT.n };
+        contract_result(self, ceiling(rank(key.as_ref()), n), 0)
+    }
+    pub(crate) fn ge_contract_none<A: AsRef<[u8]>>(&mut self, key: A) -> crate::Result<Option<(&[u8], &[u8])>> {
+        let n = unsafe { CONTRACT_LAYOUT.n };
+        contract_result(self, ceiling(rank(key.as_ref()), n), 1)
+    }
+    pub(crate) fn ge_contract_none_weak<A: AsRef<[u8]>>(&mut self, key: A) -> crate::Result<Option<(&[u8], &[u8])>> {
+        let n = unsafe { CONTRACT_LAYOUT.n };
+        contract_result(self, ceiling(rank(key.as_ref()), n), 2)
+    }
+    pub(crate) fn le_contract_some<A: AsRef<[u8]>>(&mut self, target_key: A) -> crate::Result<Option<(&[u8], &[u8])>> {
+        let n = unsafe { CONTRACT_LAYOUT.n };
+        contract_result(self, floor(rank(target_key.as_ref()), n), 0)
+    }
+    pub(crate) fn le_contract_none<A: AsRef<[u8]>>(&mut self, target_key: A) -> crate::Result<Option<(&[u8], &[u8])>> {
+        let n = unsafe { CONTRACT_LAYOUT.n };
+        contract_result(self, floor(rank(target_key.as_ref()), n), 1)
+    }
+}
+
+/// <= seek (real) over the contract of the >= seek, symbolic probe restricted to one of the three outcome
+/// classes of the >= seek (class 0: exact hit, 1: ceiling above the probe -> step back, 2: no ceiling -> last).
+pub(crate) fn le_split(layout: u8, class: u8, weak: bool, minlen: usize, maxlen: usize, probe_spec: usize) -> StepFacts {
+    reset_tables();
+    let l = build_layout(layout, minlen, maxlen);
+    set_contract_layout(&l);
+    let _ = weak;
+    let sym = any_probe_spec(probe_spec);
+    let q = &sym.b[..sym.len];
+    let qr = rank(q);
+    let n = l.n;
+    match class {
+        0 => kani::assume(exact(qr, n).is_some()),
+        1 => kani::assume(ceiling(qr, n).is_some() && exact(qr, n).is_none()),
+        _ => kani::assume(ceiling(qr, n).is_none()),
+    }
+    let version = if kani::any() { FileVersion::FormatV1 } else { FileVersion::FormatV2 };
+    // the state before the call is irrelevant: the first thing the <= seek does is the >= seek (contract)
+    let mut c = mk_reader_cursor(&l, None, None, version);
+    let expect = floor(qr, n);
+    match eidx(c.move_on_key_lower_than_or_equal_to(q), n) {
+        Ok(g) => assert!(g == expect, "C02: the <= seek did not return the floor of the probe"),
+        Err(()) => panic!("cursor operation failed although no I/O fault was injected"),
+    }
+    match expect {
+        Some(i) => check_strong(&c, &l, i),
+        None => check_weak(&c, &l),
+    }
+    let loads = c16_check(&l);
+    mem::forget(c);
+    StepFacts { fresh: false, n, i: 0, expect, qr, loads }
 }
 
 macro_rules! glue_harness {
@@ -330,6 +760,7 @@ macro_rules! glue_harness {
         #[kani::proof]
         #[kani::unwind($unwind)]
         #[kani::stub(crate::block::Block::new, crate::block::verif_ac::ac_block_new)]
+        #[kani::stub(crate::block::Block::read_from, crate::block::verif_ac::ac_block_read_from)]
         #[kani::stub(crate::block::BlockCursor::current, crate::block::verif_ac::ac_current)]
         #[kani::stub(crate::block::BlockCursor::move_on_first, crate::block::verif_ac::ac_first)]
         #[kani::stub(crate::block::BlockCursor::move_on_last, crate::block::verif_ac::ac_last)]
@@ -341,5 +772,26 @@ macro_rules! glue_harness {
     };
 }
 pub(crate) use glue_harness;
+
+/// glue_harness + extra stubs, e.g. [kani::stub(crate::reader::reader_cursor::ReaderCursor::move_on_key_greater_than_or_equal_to,
+/// crate::reader::reader_cursor::ReaderCursor::ge_contract_some)]
+macro_rules! glue_harness_with {
+    ($name:ident, $unwind:expr, [$($extra:meta),*], $body:block) => {
+        #[kani::proof]
+        #[kani::unwind($unwind)]
+        #[kani::stub(crate::block::Block::new, crate::block::verif_ac::ac_block_new)]
+        #[kani::stub(crate::block::Block::read_from, crate::block::verif_ac::ac_block_read_from)]
+        #[kani::stub(crate::block::BlockCursor::current, crate::block::verif_ac::ac_current)]
+        #[kani::stub(crate::block::BlockCursor::move_on_first, crate::block::verif_ac::ac_first)]
+        #[kani::stub(crate::block::BlockCursor::move_on_last, crate::block::verif_ac::ac_last)]
+        #[kani::stub(crate::block::BlockCursor::move_on_next, crate::block::verif_ac::ac_next)]
+        #[kani::stub(crate::block::BlockCursor::move_on_prev, crate::block::verif_ac::ac_prev)]
+        #[kani::stub(crate::block::BlockCursor::move_on_key_lower_than_or_equal_to, crate::block::verif_ac::ac_le)]
+        #[kani::stub(crate::block::BlockCursor::move_on_key_greater_than_or_equal_to, crate::block::verif_ac::ac_ge)]
+        $(#[$extra])*
+        fn $name() $body
+    };
+}
+pub(crate) use glue_harness_with;
 
 include!("cursor_gen.rs");
